@@ -268,6 +268,8 @@ structure St where
   children : List Proc := []
   -- harness
   slots : List SlotRec := []
+  /-- ghost: the slot numbers the history has called `tickit_watch_cancel` for (nothing reads it; Props/C17) -/
+  cancelReq : List Int := []
   behs : List Beh := []
   log : List Ev := []                -- events of the current operation, newest first
 deriving Repr, Inhabited
@@ -556,7 +558,7 @@ def doRegister (st : St) (k : Int) (reg : St → St × Nat) : St :=
 def doCancel (st : St) (k : Int) : St :=
   match findSlot st k with
   | none => st.emit (.skip k)
-  | some r => watchCancel st r.handle
+  | some r => watchCancel { st with cancelReq := k :: st.cancelReq } r.handle
 
 def validSig (s : Int) : Bool := SIGS.contains s
 def validPid (p : Int) : Bool := PID0 ≤ p && p < PID0 + NPID
